@@ -18,16 +18,18 @@ use std::sync::Arc;
 
 use async_trait::async_trait;
 use bytes::Bytes;
-use tokio::sync::{Mutex as TokioMutex, Notify, OwnedSemaphorePermit};
+use tokio::sync::{Mutex as TokioMutex, Notify};
 
 use super::core::command_processor::update_core_option;
 use super::parse_bool_option;
 
-/// Structure to hold state for an ongoing fragmented send (identity part already sent).
+/// Structure to hold state for an ongoing fragmented send: the frames handed to send() so far
+/// (identity first), kept here until the last one arrives.
 #[derive(Debug)]
 struct ActiveFragmentedSend {
   target_endpoint_uri: String,
-  _permit: OwnedSemaphorePermit,
+  pipe_read_id: usize,
+  frames: Vec<Msg>,
 }
 
 #[derive(Debug)]
@@ -337,28 +339,32 @@ impl ISocket for RouterSocket {
       )
     };
 
-    let current_send_target_guard = self.current_send_target.lock().await;
+    let mut current_send_target_guard = self.current_send_target.lock().await;
 
-    if let Some(active_info) = &*current_send_target_guard {
-      let target_uri_for_payload = active_info.target_endpoint_uri.clone();
-      let permit_exists = true;
+    if let Some(active_info) = current_send_target_guard.as_mut() {
+      let is_last_user_part = !msg.is_more();
+      active_info.frames.push(msg);
+      if !is_last_user_part {
+        return Ok(());
+      }
+      // The message is complete. Its frames leave the transaction before anything is awaited, so a
+      // caller that drops this future leaves no half-sent message and no held permit behind.
+      let Some(active_info) = current_send_target_guard.take() else {
+        return Ok(());
+      };
       drop(current_send_target_guard);
 
       let conn_iface_for_payload: Option<Arc<dyn ISocketConnection>> = {
         let core_s_read = self.core.core_state.read();
         core_s_read
           .endpoints
-          .get(&target_uri_for_payload)
+          .get(&active_info.target_endpoint_uri)
           .map(|ep_info| ep_info.connection_iface.clone())
       };
 
       let conn_iface = match conn_iface_for_payload {
         Some(iface) => iface,
         None => {
-          if permit_exists {
-            let mut clear_target_guard_on_err = self.current_send_target.lock().await;
-            *clear_target_guard_on_err = None;
-          }
           return if router_mandatory_opt {
             Err(ZmqError::HostUnreachable(
               "Peer for fragmented send disappeared".into(),
@@ -369,21 +375,17 @@ impl ISocket for RouterSocket {
         }
       };
 
-      let is_last_user_part = !msg.is_more();
-      let send_result = conn_iface.send_message(msg).await;
+      let _permit = self
+        .pipe_send_coordinator
+        .acquire_send_permit(active_info.pipe_read_id, timeout_opt)
+        .await?;
 
-      if is_last_user_part && permit_exists {
-        let mut clear_target_guard_on_done = self.current_send_target.lock().await;
-        *clear_target_guard_on_done = None;
-      }
-
-      return match send_result {
+      return match conn_iface
+        .send_multipart(FrameBatch::from(active_info.frames))
+        .await
+      {
         Ok(()) => Ok(()),
         Err(e) => {
-          if !is_last_user_part && permit_exists {
-            let mut clear_target_guard_on_err_payload = self.current_send_target.lock().await;
-            *clear_target_guard_on_err_payload = None;
-          }
           if router_mandatory_opt {
             Err(if matches!(e, ZmqError::ConnectionClosed) {
               ZmqError::HostUnreachable("Peer disconnected during payload send".into())
@@ -429,23 +431,17 @@ impl ISocket for RouterSocket {
         }
       };
 
-      let (conn_iface_opt, pipe_read_id_opt) = {
+      let pipe_read_id_opt = {
         let core_s_read_guard = self.core.core_state.read();
-        let result = core_s_read_guard
+        core_s_read_guard
           .endpoints
           .get(&target_endpoint_uri)
-          .map_or((None, None), |ep_info| {
-            (
-              Some(ep_info.connection_iface.clone()),
-              ep_info.pipe_ids.map(|(_, read_id)| read_id),
-            )
-          });
-        result
+          .and_then(|ep_info| ep_info.pipe_ids.map(|(_, read_id)| read_id))
       };
 
-      let (conn_iface, pipe_read_id) = match (conn_iface_opt, pipe_read_id_opt) {
-        (Some(iface), Some(id)) => (iface, id),
-        _ => {
+      let pipe_read_id = match pipe_read_id_opt {
+        Some(id) => id,
+        None => {
           self
             .router_map_for_send
             .remove_peer_by_identity(&destination_id)
@@ -460,59 +456,20 @@ impl ISocket for RouterSocket {
         }
       };
 
-      let permit = self
-        .pipe_send_coordinator
-        .acquire_send_permit(pipe_read_id, timeout_opt)
-        .await?;
-
-      let mut set_target_guard = self.current_send_target.lock().await;
-
-      match conn_iface.send_message(msg).await {
-        Ok(()) => {
-          let delimiter_result = if !self.framing.is_manual() {
-            let mut delimiter_frame = Msg::new();
-            delimiter_frame.set_flags(MsgFlags::MORE);
-            conn_iface.send_message(delimiter_frame).await
-          } else {
-            Ok(())
-          };
-          match delimiter_result {
-            Ok(()) => {
-              *set_target_guard = Some(ActiveFragmentedSend {
-                target_endpoint_uri,
-                _permit: permit,
-              });
-              Ok(())
-            }
-            Err(e) => {
-              drop(set_target_guard);
-              drop(permit);
-              if router_mandatory_opt {
-                Err(if matches!(e, ZmqError::ConnectionClosed) {
-                  ZmqError::HostUnreachable("Peer disconnected during delimiter send".into())
-                } else {
-                  e
-                })
-              } else {
-                Ok(())
-              }
-            }
-          }
-        }
-        Err(e) => {
-          drop(set_target_guard);
-          drop(permit);
-          if router_mandatory_opt {
-            Err(if matches!(e, ZmqError::ConnectionClosed) {
-              ZmqError::HostUnreachable("Peer disconnected during identity send".into())
-            } else {
-              e
-            })
-          } else {
-            Ok(())
-          }
-        }
+      // Nothing goes to the peer before the last frame arrives: the identity frame (and the
+      // delimiter after it) wait with the frames that follow.
+      let mut frames = vec![msg];
+      if !self.framing.is_manual() {
+        let mut delimiter_frame = Msg::new();
+        delimiter_frame.set_flags(MsgFlags::MORE);
+        frames.push(delimiter_frame);
       }
+      *self.current_send_target.lock().await = Some(ActiveFragmentedSend {
+        target_endpoint_uri,
+        pipe_read_id,
+        frames,
+      });
+      Ok(())
     }
   }
 
